@@ -225,10 +225,12 @@ pub mod c_api {
     }
 
     #[no_mangle]
-    pub unsafe extern "C" fn xeh_push(xs: *mut Xstate, val: *mut Xcell) {
+    pub unsafe extern "C" fn xeh_push(xs: *mut Xstate, val: *mut Xcell) -> bool {
         let mut xs = Box::from_raw(xs);
         let val = Box::from_raw(val);
-        xs.push_data(*val).unwrap();
+        // false: the stack limit refused the value (it is released, the stack is unchanged)
+        let pushed = xs.push_data(*val).is_ok();
         Box::into_raw(xs);
+        pushed
     }
 }
